@@ -359,6 +359,29 @@ pub fn val_of_width(size: usize) -> BoxedStrategy<u64> {
     .boxed()
 }
 
+/// `n` pseudo-random bytes from a seed (a 1 MiB `vec(any::<u8>())` costs a value tree node per byte)
+pub fn seeded_bytes(seed: u32, n: usize, name: bool) -> Vec<u8> {
+    let mut x = seed | 1;
+    (0..n)
+        .map(|_| {
+            x ^= x << 13;
+            x ^= x >> 17;
+            x ^= x << 5;
+            if name {
+                // name alphabet: mostly letters, some '/', '.', arbitrary non-NUL bytes
+                match x >> 8 & 15 {
+                    0 => b'/',
+                    1 => b'.',
+                    2 | 3 => (x as u8).max(1),
+                    _ => b'a' + (x % 26) as u8,
+                }
+            } else {
+                x as u8
+            }
+        })
+        .collect()
+}
+
 pub fn name_strategy(max_len: usize) -> BoxedStrategy<Vec<u8>> {
     let byte = prop_oneof![
         6 => (b'a'..=b'z'),
@@ -370,7 +393,11 @@ pub fn name_strategy(max_len: usize) -> BoxedStrategy<Vec<u8>> {
         6 => proptest::collection::vec(byte.clone(), 1..12),
         2 => proptest::collection::vec(byte.clone(), 0..64),
         1 => proptest::collection::vec(byte.clone(), 200..300),
-        1 => proptest::collection::vec(byte, 0..max_len.max(1)),
+        1 => if max_len > 8192 {
+            (0..=max_len, any::<u32>()).prop_map(|(n, seed)| seeded_bytes(seed, n, true)).boxed()
+        } else {
+            proptest::collection::vec(byte, 0..max_len.max(1)).boxed()
+        },
     ]
     .boxed()
 }
@@ -388,6 +415,17 @@ pub fn hdr_strategy() -> BoxedStrategy<Hdr> {
         .boxed()
 }
 
+fn big_payload(max_payload: usize) -> BoxedStrategy<Vec<u8>> {
+    if max_payload > 65536 {
+        (0..max_payload, any::<u32>()).prop_map(|(n, seed)| seeded_bytes(seed, n, false)).boxed()
+    } else {
+        proptest::collection::vec(any::<u8>(), 0..max_payload.max(1)).boxed()
+    }
+}
+
+/// the server accepts messages up to MAX_BUFFER_SIZE + BUFFER_HEADER_SIZE bytes in total
+pub const MAX_MESSAGE: usize = (1 << 20) + 4096;
+
 /// Well-formed request of one opcode. `big`: allow large names/payloads (thorough tier).
 pub fn req_of(op: &'static str, max_payload: usize, max_name: usize) -> BoxedStrategy<Req> {
     let d = opdef(op);
@@ -400,7 +438,7 @@ pub fn req_of(op: &'static str, max_payload: usize, max_name: usize) -> BoxedStr
         prop_oneof![
             6 => proptest::collection::vec(any::<u8>(), 0..64),
             4 => proptest::collection::vec(any::<u8>(), 0..4200),
-            2 => proptest::collection::vec(any::<u8>(), 0..max_payload.max(1)),
+            2 => big_payload(max_payload),
             1 => (prop_oneof![Just(1usize << 20), Just((1 << 20) - 1), Just((1 << 20) - 4096), Just(65536), Just(65537), Just(131072), Just(1 << 19)], any::<u32>())
                 .prop_map(|(n, seed)| {
                     let mut x = seed | 1;
@@ -419,7 +457,7 @@ pub fn req_of(op: &'static str, max_payload: usize, max_name: usize) -> BoxedStr
         prop_oneof![
             3 => proptest::collection::vec(any::<u8>(), 0..64),
             2 => proptest::collection::vec(any::<u8>(), 0..4200),
-            1 => proptest::collection::vec(any::<u8>(), 0..max_payload.max(1)),
+            1 => big_payload(max_payload),
         ]
         .boxed()
     } else {
@@ -449,9 +487,42 @@ pub fn req_of(op: &'static str, max_payload: usize, max_name: usize) -> BoxedStr
                 items,
             };
             normalise(&mut r);
+            // "names of every length up to the buffer limit": the whole message has to fit
+            let mut guard = 0;
+            while r.encode().len() > MAX_MESSAGE && guard < 8 {
+                guard += 1;
+                let over = r.encode().len() - MAX_MESSAGE;
+                if let Some(n) = r.names.iter_mut().max_by_key(|n| n.0.len()) {
+                    if n.0.len() > over {
+                        let keep = n.0.len() - over;
+                        n.0.truncate(keep);
+                        continue;
+                    }
+                    n.0.truncate(1);
+                }
+                if r.payload.len() > over {
+                    let keep = r.payload.len() - over;
+                    r.payload.truncate(keep);
+                    normalise(&mut r);
+                }
+            }
             r
         })
         .boxed()
+}
+
+/// Structural consistency of a request that did not come straight from `req_of` (fuzz inputs):
+/// known opcode, the right number of names, exactly the body fields of that opcode with values
+/// that fit their width, no NUL inside names.
+pub fn consistent(r: &Req) -> bool {
+    let Some(d) = OPS.iter().find(|d| d.op == r.op) else { return false };
+    let fl = body_fields(d);
+    r.names.len() == d.names
+        && r.names.iter().all(|n| !n.0.contains(&0))
+        && r.fields.len() == fl.len()
+        && fl.iter().all(|(k, w)| r.fields.get(k).is_some_and(|v| *w >= 8 || *v >> (8 * *w as u32) == 0))
+        && (d.payload || r.payload.is_empty())
+        && (!d.item.is_empty() || r.items.is_empty())
 }
 
 /// Make dependent fields consistent with a *well-formed* request (what a kernel sends).
